@@ -13,10 +13,15 @@ from antismash.common.secmet.test.helpers import DummyCDS  # noqa: E402
 from . import build  # noqa: E402
 
 
-def render(node: dict, top: bool = True) -> str:
-    """ abstract condition tree -> rule condition text (parenthesising every nested group) """
+def render(node: dict, top: bool = True, doubled: bool = False) -> str:
+    """ abstract condition tree -> rule condition text (parenthesising every nested group).
+        doubled: the same conditions spelled with double negations outside cds(): x as `not (not x)`, not x as
+        `not (not (not x))` - "not" is plain negation, so the meaning is the same """
     neg = "not " if node["neg"] else ""
     kind = node["k"]
+    if doubled and kind in ("id", "score", "min", "cds"):
+        plain = render(dict(node, neg=False), top=True)
+        return f"not (not (not {plain}))" if node["neg"] else f"not (not {plain})"
     if kind == "id":
         return neg + node["p"]
     if kind == "score":
@@ -26,18 +31,18 @@ def render(node: dict, top: bool = True) -> str:
     if kind == "cds":
         return f"{neg}cds({render(node['args'][0], top=True)})"
     joiner = " and " if kind == "and" else " or "
-    text = joiner.join(render(child, top=False) for child in node["args"])
+    text = joiner.join(render(child, top=False, doubled=doubled) for child in node["args"])
     if node["neg"]:
         return f"not ({text})"
     return text if top else f"({text})"
 
 
 def rule_text(name: str, cond: dict, cutoff: int, neighbourhood: int, *, extenders: dict = None,
-              superiors: list = None, category: str = "cat") -> str:
+              superiors: list = None, category: str = "cat", doubled: bool = False) -> str:
     text = f"RULE {name} CATEGORY {category} "
     if superiors:
         text += f"SUPERIORS {', '.join(superiors)} "
-    text += f"CUTOFF {cutoff} NEIGHBOURHOOD {neighbourhood} CONDITIONS {render(cond)}"
+    text += f"CUTOFF {cutoff} NEIGHBOURHOOD {neighbourhood} CONDITIONS {render(cond, doubled=doubled)}"
     if extenders:
         text += f" EXTENDERS {render(extenders)}"
     return text
